@@ -21,7 +21,7 @@ from hplsim import core, gen, seams
 PROP = 'C07'
 
 TIERS = {
-    'quick': dict(runs=1100, calls=(10, 40), wall=80),
+    'quick': dict(runs=800, calls=(10, 40), wall=80),
     'thorough': dict(runs=90000, calls=(10, 60), wall=1500),
 }
 
